@@ -270,8 +270,34 @@ func execWire(c *ctx, in ev) []ev {
 	case "Reuse":
 		obj := newObj(m)
 		out := []ev{{"op": "RNew", "m": m}}
+		// histories with a consumer step ("X", type 3 only) need an issuer that can open the requests: the values 1 and 2
+		// are then two honest requests made here, for this issuer (the trace records the bytes actually used)
+		var xw *t3World
+		local := map[string][]byte{}
+		for _, st := range gL(in, "steps") {
+			if st.(map[string]any)["k"] == "X" && xw == nil {
+				xw = newT3World(rsaKey(3), c.seed, map[string]string{"reuse.example": "a", "another-origin-for-reuse.example": "b"})
+				a1, e1 := honestT3(xw, p384Scalar(c.seed, "reuse-client"), p384Scalar(c.seed, "reuse-blind-1"), []byte("ch1"), make([]byte, 32), "reuse.example")
+				a2, e2 := honestT3(xw, p384Scalar(c.seed, "reuse-client"), p384Scalar(c.seed, "reuse-blind-2"), []byte("ch2"), make([]byte, 32), "another-origin-for-reuse.example")
+				if e1 != nil || e2 != nil {
+					panic("reuse world")
+				}
+				local["1"], local["2"], local["g"] = a1.req, a2.req, a1.req[:len(a1.req)/2]
+			}
+		}
 		for _, st := range gL(in, "steps") {
 			s := st.(map[string]any)
+			if s["k"].(string) == "X" {
+				var ok bool
+				o := observe(false, func() {
+					_, _, err := xw.issuer.Evaluate(obj.Marshal()) // the slice Marshal returned, not a copy of it
+					ok = err == nil
+				})
+				e := ev{"op": "RConsume", "m": m, "ok": ok}
+				o.fill(e)
+				out = append(out, e)
+				continue
+			}
 			if s["k"].(string) == "M" {
 				var mb []byte
 				o := observe(false, func() { mb = obj.Marshal() })
@@ -280,6 +306,9 @@ func execWire(c *ctx, in ev) []ev {
 				out = append(out, e)
 			} else {
 				b := jBytes(s["b"])
+				if v, _ := s["v"].(string); xw != nil && local[v] != nil {
+					b = local[v]
+				}
 				var ok bool
 				o := observe(false, func() { ok = obj.Unmarshal(append([]byte{}, b...)) })
 				var val any = ev{}
@@ -739,6 +768,29 @@ func genWire(c *ctx, emit func(ev)) {
 		emit(ev{"op": "Enc", "m": "batchreq", "val": reqs})
 	}
 
+	// lists whose body is exactly 16384 bytes long (and its neighbours): the first length that needs a four-byte varint
+	for _, n := range []int{511, 512, 513} {
+		el := [][]byte{}
+		for k := 0; k < n; k++ {
+			el = append(el, randBytes(r, 32))
+		}
+		v := roundTrip(ev{"v": ev{"key_id": r.Intn(256), "elems": list(el)}})["v"]
+		emit(ev{"op": "Enc", "m": "t5req", "val": v})
+		dec("t5req", encodeVal("t5req", v), false)
+	}
+	{
+		reqs := []any{}
+		for k := 0; k < 48; k++ {
+			reqs = append(reqs, ev{"type": 2, "key_id": r.Intn(256), "blinded": B(randBytes(r, 256))})
+		}
+		for k := 0; k < 76; k++ { // 48 * 259 + 76 * 52 = 16384
+			reqs = append(reqs, ev{"type": 1, "key_id": r.Intn(256), "blinded": B(randBytes(r, 49))})
+		}
+		v := roundTrip(ev{"v": reqs})["v"]
+		emit(ev{"op": "Enc", "m": "batchreq", "val": v})
+		dec("batchreq", encodeVal("batchreq", v), false)
+	}
+
 	// accessors next to the codecs (beyond the listed properties): every honest message against itself, against the
 	// other honest messages of its kind and against single-bit variants of itself
 	for i, h := range hs {
@@ -854,14 +906,26 @@ func genReuse(c *ctx, r *rand.Rand, hs []honestMsg, emit func(ev)) {
 					case 'M':
 						steps = append(steps, ev{"k": "M"})
 					case '1':
-						steps = append(steps, ev{"k": "U", "b": B(v1)})
+						steps = append(steps, ev{"k": "U", "b": B(v1), "v": "1"})
 					case '2':
-						steps = append(steps, ev{"k": "U", "b": B(v2)})
+						steps = append(steps, ev{"k": "U", "b": B(v2), "v": "2"})
 					case 'G':
-						steps = append(steps, ev{"k": "U", "b": B(garbage)})
+						steps = append(steps, ev{"k": "U", "b": B(garbage), "v": "g"})
 					}
 				}
 				emit(ev{"op": "Reuse", "m": m, "steps": steps, "behaviour": bh})
+				if m == "t3req" && pi == 0 && strings.ContainsAny(bh, "12") && strings.Contains(bh, "M") {
+					// the same history where, after every accepting decode, the object's encoding is handed to the
+					// issuer (Evaluate(obj.Marshal())): a consumer of the encoding must not change what Marshal returns next
+					xs := []any{}
+					for _, st := range steps {
+						xs = append(xs, st)
+						if st.(ev)["k"] == "U" && st.(ev)["v"] != "g" {
+							xs = append(xs, ev{"k": "X"})
+						}
+					}
+					emit(ev{"op": "Reuse", "m": m, "steps": xs, "behaviour": bh + "+X"})
+				}
 			}
 		}
 	}
